@@ -60,8 +60,25 @@ inline constexpr void convert_type_fundamental(T_To& to,
     cond4, is_floating_point_v<T_To> || is_floating_point_v<T_From>)
   {
     static_assert(is_floating_point_v<T_To> && is_floating_point_v<T_From>);
-    // language coerces different float types
-    to = from;
+    if constexpr (is_same_v<remove_cv_t<T_To>, long double> &&
+                  numeric_limits<long double>::digits == 64 &&
+                  (sizeof(long double) > 10)) {
+      // x87 extended precision: 10 of the object's 16 bytes carry the value.
+      // Write exactly those. A plain assignment is not enough to keep the
+      // other 6 out of it: the compiler may copy the whole object, or treat
+      // the store as covering all 16 bytes and drop the zeroing of a struct
+      // image that precedes it - either way bytes the application never wrote
+      // would travel into the sandbox
+      const long double val = from;
+      const auto* src = reinterpret_cast<const unsigned char*>(&val);
+      auto* dst = reinterpret_cast<volatile unsigned char*>(&to);
+      for (size_t i = 0; i < 10; i++) {
+        dst[i] = src[i];
+      }
+    } else {
+      // language coerces different float types
+      to = from;
+    }
   }
   else if_constexpr_named(cond5, is_integral_v<T_To> || is_integral_v<T_From>)
   {
